@@ -50,7 +50,7 @@ def random_rows(rng: random.Random):
     ids = rng.sample(range(1, 60), rng.randint(1, 6))
     for c in ids:
         n = rng.choice([0, 1, 2, 5, 12, 30])
-        x = rng.randint(0, 3000)
+        x = rng.choice([0, 0, rng.randint(0, 3000)])
         for _ in range(n):
             rows.append({"cid": c, "chan": 1, "pos": x})
             x += rng.choice([0, 1, 7, rng.randint(10, 200000)])
@@ -82,7 +82,7 @@ def run(ctx: Ctx):
     th.start()
     space = batch.export_by_print("MC_Cmap", "Export_Cmap.cfg", ctx.workdir, workers=4)
     if quick:
-        space = space[::40]
+        space = space[::150]
     cases = [{"rows": c["rows"], "filter": sorted(c["filter"])} for c in space]
     cases += [random_rows(rng) for _ in range(1500 if quick else 40000)]
     records = []
